@@ -1328,7 +1328,9 @@ class Stopper(Commander):
         # populate stopping jobs for all applications
         for application in self.supvisors.context.applications.values():
             # do not check the application state are running processes may be excluded in the evaluation
-            if application.has_running_processes():
+            # an application whose last processes are still STOPPING is not done: the lower stop sequences wait for it
+            if (application.has_running_processes()
+                    or any(process.state == ProcessStates.STOPPING for process in application.processes.values())):
                 self.logger.info(f'Stopper.stop_applications: stopping {application.application_name}')
                 self.store_application(application)
         self.logger.debug(f'Stopper.stop_applications: planned_jobs={self.planned_jobs}')
